@@ -11,6 +11,14 @@ use std::sync::Arc;
 use std::time::{Duration, Instant};
 
 static RAN: AtomicU64 = AtomicU64::new(0);
+/// schedule forcing (pause points of the repository's verification hooks)
+static LATE_LOOP_MS: AtomicU64 = AtomicU64::new(0);
+static RACE_TASK: AtomicU64 = AtomicU64::new(0);
+static RACE_AT_GAP: AtomicBool = AtomicBool::new(false);
+static STOP_DONE: AtomicBool = AtomicBool::new(false);
+thread_local! {
+    static CUR_TASK: std::cell::Cell<u64> = const { std::cell::Cell::new(0) };
+}
 
 /// a JoinHandle is not Send (it holds a reference to its event loop); the harness moves handles
 /// between its own threads the way applications do with the crate's wrapper type
@@ -62,6 +70,34 @@ fn run_scenario(sc: &Value) {
     let stop_after_ms = sc.get("stop_after_ms").and_then(Value::as_u64);
     let sleep_ms = sc["sleep_ms"].as_u64().unwrap_or(0);
     let total = m * n;
+    // `late_loop_ms`: every loop thread is held at its very first instruction (a slow thread start);
+    // `race_task`: the submitter of that task is held between the pool's state check and its push
+    // until stop() has returned (or 300 ms have passed), and stop() is issued while it is held
+    LATE_LOOP_MS.store(sc["late_loop_ms"].as_u64().unwrap_or(0), Ordering::SeqCst);
+    RACE_TASK.store(sc["race_task"].as_u64().unwrap_or(0), Ordering::SeqCst);
+    let race_task = RACE_TASK.load(Ordering::SeqCst);
+    if LATE_LOOP_MS.load(Ordering::SeqCst) > 0 || race_task > 0 {
+        open_coroutine_core::common::verif::set_pause(Some(Box::new(|point| match point {
+            "event_loop_thread_enter" => {
+                let ms = LATE_LOOP_MS.load(Ordering::SeqCst);
+                if ms > 0 {
+                    std::thread::sleep(Duration::from_millis(ms));
+                }
+            }
+            "pool_submit_between_check_and_push" => {
+                let rt = RACE_TASK.load(Ordering::SeqCst);
+                if rt > 0 && CUR_TASK.with(std::cell::Cell::get) == rt {
+                    RACE_AT_GAP.store(true, Ordering::SeqCst);
+                    let t0 = Instant::now();
+                    while !STOP_DONE.load(Ordering::SeqCst) && t0.elapsed() < Duration::from_millis(300) {
+                        std::thread::sleep(Duration::from_millis(1));
+                    }
+                    std::thread::sleep(Duration::from_millis(2));
+                }
+            }
+            _ => {}
+        })));
+    }
     rec(json!({"ev": "ereset", "scenario": sc["id"], "loops": loops, "max": max, "tasks": total, "body": body}));
     let mut cfg = Config::single();
     cfg.set_event_loop_size(loops).set_max_size(max);
@@ -78,6 +114,7 @@ fn run_scenario(sc: &Value) {
                 let t = s * n + i + 1;
                 let prio = match t % 5 { 0 => i64::MIN, 1 => -1, 2 => 0, 3 => 1, _ => i64::MAX };
                 let kind = if body == "mix" { ["trivial", "suspend", "delay", "panic", "trivial"][(t % 5) as usize] } else { body.as_str() }.to_string();
+                CUR_TASK.with(|c| c.set(t));
                 let h = EventLoops::submit_task(
                     Some(format!("t{t}-e2e")),
                     move |_| {
@@ -141,12 +178,21 @@ fn run_scenario(sc: &Value) {
     let stopper = stop_after_ms.map(|ms| {
         let stopping = stopping.clone();
         std::thread::spawn(move || {
-            std::thread::sleep(Duration::from_millis(ms));
+            if race_task > 0 {
+                // stop while the designated submitter sits between check and push
+                let t0 = Instant::now();
+                while !RACE_AT_GAP.load(Ordering::SeqCst) && t0.elapsed() < Duration::from_millis(2000) {
+                    std::thread::sleep(Duration::from_micros(200));
+                }
+            } else {
+                std::thread::sleep(Duration::from_millis(ms));
+            }
             stopping.store(true, Ordering::SeqCst);
             rec(json!({"ev": "stop_b", "limit": 3000}));
             let t0 = Instant::now();
             let r = EventLoops::stop(Duration::from_millis(3000));
             rec(json!({"ev": "stop_e", "ok": r.is_ok(), "ms": t0.elapsed().as_millis() as u64, "limit": 3000}));
+            STOP_DONE.store(true, Ordering::SeqCst);
         })
     });
     // submitters must come back: a submission never blocks for long
